@@ -74,6 +74,12 @@ partial def toJVal : Json → Fold.JVal
 def modelFold : String → String := Fold.foldName (Fold.simpleFold id)
 
 def step (st : Unit) (j : Json) : Unit × List String :=
+  if jStr j "op" == "xph" then
+    (st, [match Kid.extractProtectedHeaders (jBool j "tokempty") (parseJws (jObj j "info")) with
+      | .err => "err"
+      | .headers none => "headers:,"
+      | .headers (some s) => "headers:" ++ s.alg ++ "," ++ s.kid])
+  else
   if jStr j "op" == "resolvekid" then
     (st, [Kid.normKidS (jStr j "kid") (jStr j "issuer")])
   else
